@@ -8,7 +8,7 @@ iteration); component loops `for i in 0..n` are interpreted once with a generic 
 Anything not understood becomes an opaque atom - never a guess.
 """
 from fractions import Fraction
-from poly import Poly, opaque, fresh, lit_fraction, DEFS, as_poly
+from poly import Poly, opaque, fresh, lit_fraction, DEFS, ATOM_TY, as_poly
 
 
 class Buf:
@@ -28,7 +28,10 @@ class Buf:
             return self.blocks[k]
         if self.base is not None:
             return self.base
-        return Poly.atom("%s@%d" % (self.name, k))
+        a = "%s@%d" % (self.name, k)
+        if self.name in DEFS and a not in DEFS:
+            DEFS[a] = DEFS[self.name]
+        return Poly.atom(a)
 
     def with_block(self, k, v, unit=None):
         b = dict(self.blocks)
@@ -87,6 +90,9 @@ class Coll:
         return "Coll%r" % (self.elems,)
 
 
+FACTS = "$facts"
+
+
 VEC_TYPES = ("std::vec::Vec<f64>", "&[f64]", "&mut [f64]", "&std::vec::Vec<f64>", "&mut std::vec::Vec<f64>",
              "[f64]", "methods::Tolerance", "&methods::Tolerance", "&mut methods::Tolerance")
 
@@ -115,6 +121,7 @@ class SymExec:
         self.notes = []
         self.key_ty = {}
         self.lazy = {}     # key -> value it got when first read without ever being assigned
+        self.flagfacts = {}  # (bool key, value) -> tuple of fact sets, one per assignment of that literal (alternatives)
         self.pc = []       # path condition: (if-node, branch, cond value) of the enclosing conditionals
 
     # ------------------------------------------------------------------ utilities
@@ -196,14 +203,18 @@ class SymExec:
             del self.st[k]
         self.st[key] = v
 
-    def havoc_key(self, key, why="havoc"):
+    def havoc_key(self, key, why="havoc", inputs=None, op="callout"):
         old = self.st.get(key)
         nm = self.names.get(key, key)
+        if inputs is not None:
+            prev = [old] if isinstance(old, Poly) else ([old.get(0)] if isinstance(old, Buf) and (not old.blocks or list(old.blocks) == [0]) else
+                                                          [v for v in old.blocks.values() if isinstance(v, Poly)] if isinstance(old, Buf) else [])
+            inputs = list(inputs) + prev
         if isinstance(old, Buf):
-            f = self.fresh("%s~%s" % (nm, why))
+            f = fresh("%s~%s" % (nm, why), inputs, op)
             self.set(key, Buf(f.single_atom(), {}, old.len, old.unit, base=None))
         else:
-            self.set(key, self.fresh("%s~%s" % (nm, why)))
+            self.set(key, fresh("%s~%s" % (nm, why), inputs, op))
 
     @staticmethod
     def join_val(a, b, tag):
@@ -242,12 +253,25 @@ class SymExec:
         for s in states:
             keys |= set(s)
         for k in keys:
+            if k == FACTS:
+                fs = [s.get(FACTS, frozenset()) for s in states]
+                out[k] = frozenset.intersection(*fs)
+                continue
             vals = [s.get(k, self.lazy.get(k)) for s in states]
             v = vals[0]
             for w in vals[1:]:
                 v = self.join_val(v, w, self.names.get(k, k))
             out[k] = v
         return out
+
+    def add_fact(self, cond, truth):
+        if self.st is None or not isinstance(cond, Poly):
+            return
+        self.st[FACTS] = self.st.get(FACTS, frozenset()) | {(cond, truth)}
+
+    def facts(self, st=None):
+        st = self.st if st is None else st
+        return st.get(FACTS, frozenset()) if st is not None else frozenset()
 
     # ------------------------------------------------------------------ lvalues
     def lvalue(self, e):
@@ -482,6 +506,22 @@ class SymExec:
             return l.div(r)
         if op == "Rem":
             return opaque("rem", [l, r])
+        if op in ("Lt", "Le", "Gt", "Ge", "Eq", "Ne"):
+            # constant folding (incl. +infinity) so that infeasible branches are not explored
+            def num(p):
+                c = p.const_value()
+                if c is not None:
+                    return float(c)
+                a = p.single_atom()
+                if a and a.endswith("::INFINITY"):
+                    return float("inf")
+                if a and a.endswith("::NEG_INFINITY"):
+                    return float("-inf")
+                return None
+            a, b = num(l), num(r)
+            if a is not None and b is not None:
+                res = {"Lt": a < b, "Le": a <= b, "Gt": a > b, "Ge": a >= b, "Eq": a == b, "Ne": a != b}[op]
+                return self.TRUE if res else self.FALSE
         return opaque(op.lower(), [l, r])
 
     def e_Tuple(self, e):
@@ -530,6 +570,10 @@ class SymExec:
         if isinstance(v, Ref) and v.block is None and isinstance(self.st.get(v.key), Buf) and lv[0] != "key":
             v = self.st[v.key]
         self.log("assign", lv=lv, value=v, node=e)
+        if lv[0] == "key" and isinstance(v, Poly) and v in (self.TRUE, self.FALSE) and self.st is not None:
+            fk = (lv[1], v == self.TRUE)
+            cur = self.st.get(FACTS, frozenset())
+            self.flagfacts[fk] = self.flagfacts.get(fk, ()) + (cur,)
         self.write_lv(lv, v)
         return Poly.atom("unit")
 
@@ -575,6 +619,7 @@ class SymExec:
         if k == "PBind":
             key = pat["id"]
             self.names[key] = pat["name"]
+            self.key_ty[key] = pat.get("ty")
             if v is None:
                 # declared, not initialised
                 self.st.pop(key, None)
@@ -587,6 +632,10 @@ class SymExec:
                 # a fresh owned buffer takes the binding's name (values are copied)
                 v = Buf(v.name, dict(v.blocks), v.len, v.unit, v.base)
             self.st[key] = v
+            if isinstance(v, Poly) and v in (self.TRUE, self.FALSE):
+                fk = (key, v == self.TRUE)
+                cur = self.st.get(FACTS, frozenset())
+                self.flagfacts[fk] = self.flagfacts.get(fk, ()) + (cur,)
             if pat.get("sub"):
                 self.bind_pat(pat["sub"], v)
             return
@@ -654,6 +703,8 @@ class SymExec:
             lv = self.lvalue(cnode)
             if lv[0] == "key":
                 self.st[lv[1]] = self.TRUE if truth else self.FALSE
+                if (lv[1], truth) in self.flagfacts:
+                    self.st[FACTS] = self.st.get(FACTS, frozenset()) | {(Poly.atom("flag:%s" % lv[1]), truth)}
             return
         if k == "Binary" and cnode["op"] == "And" and truth:
             self.refine(cnode["l"], None, True)
@@ -671,7 +722,8 @@ class SymExec:
                     if lv[0] == "key":
                         other = self.eval(vb)
                         cur = self.st.get(lv[1])
-                        if isinstance(other, Poly) and isinstance(cur, Poly) and not (cur.atoms() & other.atoms() and cur.single_atom() is None):
+                        if isinstance(other, Poly) and isinstance(cur, Poly) and not other.is_const() \
+                                and not (cur.atoms() & other.atoms() and cur.single_atom() is None):
                             self.st[lv[1]] = other
                             self.log("eq_refine", key=lv[1], value=other, node=cnode)
                             return
@@ -681,6 +733,11 @@ class SymExec:
         if self.st is None:
             return Poly.atom("never")
         sel = self.h.select_if(self, e, cond) if self.h else None
+        if isinstance(cond, Poly) and ((cond == self.FALSE and sel == "then") or (cond == self.TRUE and sel == "else")):
+            # the rule asked for a branch that is infeasible on this path
+            self.log("infeasible", node=e, cond=cond, sel=sel)
+            self.st = None
+            return Poly.atom("never")
         if sel is None and isinstance(cond, Poly):
             if cond == self.TRUE:
                 sel = "then"
@@ -689,12 +746,14 @@ class SymExec:
         self.log("if", node=e, cond=cond, sel=sel)
         if sel == "then":
             self.pc.append((e, "then", cond))
+            self.add_fact(cond, True)
             self.refine(e["cond"], cond, True)
             v = self.eval(e["then"])
             self.pc.pop()
             return v
         if sel == "else":
             self.pc.append((e, "else", cond))
+            self.add_fact(cond, False)
             self.refine(e["cond"], cond, False)
             v = self.eval(e["else"]) if e.get("else") is not None else Poly.atom("unit")
             self.pc.pop()
@@ -703,12 +762,14 @@ class SymExec:
         self.cond_depth += 1
         self.st = dict(base)
         self.pc.append((e, "then", cond))
+        self.add_fact(cond, True)
         self.refine(e["cond"], cond, True)
         v1 = self.eval(e["then"])
         self.pc.pop()
         s1 = self.st
         self.st = dict(base)
         self.pc.append((e, "else", cond))
+        self.add_fact(cond, False)
         self.refine(e["cond"], cond, False)
         v2 = self.eval(e["else"]) if e.get("else") is not None else Poly.atom("unit")
         self.pc.pop()
@@ -908,6 +969,7 @@ class SymExec:
         hav = {}
         for _round in range(12):
             snap = self.h.snapshot() if self.h else None
+            ff_snap = dict(self.flagfacts)
             n_ex = len(self.exits)
             n_tr = len(self.trace)
             self.st = dict(pre)
@@ -922,6 +984,12 @@ class SymExec:
             new = []
             if L is not None:
                 for k in set(L) | set(head):
+                    if k == FACTS:
+                        common = head.get(FACTS, frozenset()) & L.get(FACTS, frozenset())
+                        if common != head.get(FACTS, frozenset()):
+                            pre[FACTS] = common
+                            new.append(FACTS)
+                        continue
                     if k in hav or k in fixed:
                         continue
                     a, b = head.get(k), L.get(k)
@@ -936,18 +1004,30 @@ class SymExec:
                 if self.h:
                     self.h.loop_latch(self, node, latch, breaks)
                 return latch, breaks
-            # roll back the trial run and widen
+            # roll back the trial run (its log, its exits towards outer targets, its flag facts) and widen
             del self.trace[n_tr:]
+            del self.exits[n_ex:]
+            self.flagfacts = ff_snap
             if self.h and snap is not None:
                 self.h.restore(snap)
             for k in new:
+                if k == FACTS:
+                    continue
                 old = pre.get(k)
                 nm = self.names.get(k, k)
                 if isinstance(old, Buf):
-                    f = self.fresh("%s~loop" % nm)
+                    lb = L.get(k)
+                    ins = [v for v in ([old.get(0)] if not old.blocks else list(old.blocks.values())) if isinstance(v, Poly)]
+                    if isinstance(lb, Buf):
+                        ins += [v for v in ([lb.get(0)] if not lb.blocks else list(lb.blocks.values())) if isinstance(v, Poly)]
+                    f = fresh("%s~loop" % nm, ins, op="widen")
                     hav[k] = Buf(f.single_atom(), {}, old.len, old.unit, None)
                 else:
-                    hav[k] = self.fresh("%s~loop" % nm)
+                    lv_ = L.get(k)
+                    # provenance only ("widen"): NOT a value description - the atom stands for every iteration
+                    hav[k] = fresh("%s~loop" % nm, [x for x in (old, lv_) if isinstance(x, Poly)], op="widen")
+                    if self.key_ty.get(k):
+                        ATOM_TY[hav[k].single_atom()] = self.key_ty[k]
         # did not stabilise: fall back to havocking every syntactic root
         self.st = dict(pre)
         self.havoc_roots(roots, "loop")
@@ -1185,9 +1265,18 @@ class SymExec:
             if isinstance(v, Ref) and v.mut:
                 muts.append(("key", v.key) if v.block is None else ("slice", v.key, v.block, v.unit))
             vals.append(self._p(v))
+        # values of the mutable arguments before the call also flow into their values after it
+        ins = list(vals)
         for lv in muts:
             if len(lv) > 1 and lv[1] is not None:
-                self.havoc_key(lv[1], "call")
+                cur = self.st.get(lv[1])
+                if isinstance(cur, Poly):
+                    ins.append(cur)
+                elif isinstance(cur, Buf):
+                    ins.extend(v for v in ([cur.get(0)] if not cur.blocks else cur.blocks.values()) if isinstance(v, Poly))
+        for lv in muts:
+            if len(lv) > 1 and lv[1] is not None:
+                self.havoc_key(lv[1], "call", inputs=ins)
         self.log("call", callee=d, node=e, args=vals)
         return opaque("call:" + d, vals, tag=e.get("sp"))
 
